@@ -291,7 +291,7 @@ func tiny(rnd *rand.Rand) ref.Msg {
 }
 
 func TestRun(t *testing.T) {
-	rec := vr.New("C07", "message sequences (1..30 messages: every stream length class 0-12/13-268/269-65804/65805+, token lengths 0..8, ordinary codes and the signalling codes CSM/Ping/Pong/Release/Abort) x segmentations (ALL 2^(n-1) cut sets for streams of n <= 12 bytes (quick) / 16 (thorough); byte-wise; single chunk; a cut at every offset; cuts inside and around every frame header; PRNG cuts) x read-buffer sizes {1,2,3,7,64,2048}; maximum message size = the largest frame of the stream / a few bytes more / far larger; with and without a request monitor that drops a deterministic subset (handler must see the rest, monitor must see all); oversize frames (declared length max+1.., 32-bit extended lengths near 2^32) fed header-only and with following frames. Distinct = distinct (stream, cut set, buffer size).")
+	rec := vr.New("C07", "message sequences (1..30 messages: every stream length class 0-12/13-268/269-65804/65805+, token lengths 0..8, ordinary codes and the signalling codes CSM/Ping/Pong/Release/Abort) x segmentations (ALL 2^(n-1) cut sets for streams of n <= 12 bytes (quick) / 16 (thorough); byte-wise; single chunk; a cut at every offset; cuts inside and around every frame header; PRNG cuts) x read-buffer sizes {1,2,3,7,64,2048}; maximum message size = the largest frame of the stream / a few bytes more / far larger; with and without a request monitor that drops a deterministic subset (handler must see the rest, monitor must see all); peer CSMs announcing a small or a huge Max-Message-Size in front of the stream (the local limit is unaffected); oversize frames (declared length max+1.., 32-bit extended lengths near 2^32) fed header-only and with following frames. Distinct = distinct (stream, cut set, buffer size).")
 	defer rec.Flush(true)
 	seed := vr.Seed()
 	caches := []int{1, 2, 3, 7, 64, 2048}
@@ -393,6 +393,17 @@ func TestRun(t *testing.T) {
 				msgs = append(msgs, m)
 				stream = append(stream, e...)
 			}
+			if i%5 == 3 {
+				// the peer announces a Max-Message-Size of its own (what IT is willing to receive): that does not change
+				// what this endpoint accepts - frames up to the configured limit must still be delivered
+				csm := ref.Msg{Code: 7<<5 | 1, Opts: []ref.Opt{{ID: 2, Val: ref.Uint(uint32(8 + r.Intn(24)))}}}
+				e := ref.EncodeTCP(csm)
+				stream = append(append([]byte(nil), e...), stream...)
+				for bi := range bounds {
+					bounds[bi] += len(e)
+				}
+				msgs = append([]ref.Msg{csm}, msgs...)
+			}
 			want, err := ref.ParseTCPStream(stream)
 			if err != nil || len(want) != len(msgs) {
 				rec.Violation("C07/harness/reference-stream", fmt.Sprint(err), nil)
@@ -473,6 +484,10 @@ func TestRun(t *testing.T) {
 			r := rand.New(rand.NewSource(gs))
 			maxSize := []uint32{64, 300, 1152, 65536}[r.Intn(4)]
 			var prefix []ref.Msg
+			if i%3 == 1 {
+				// the peer announced that IT accepts very large messages: this endpoint's own limit is unaffected
+				prefix = append(prefix, ref.Msg{Code: 7<<5 | 1, Opts: []ref.Opt{{ID: 2, Val: ref.Uint(1 << 22)}}})
+			}
 			for j := 0; j < r.Intn(4); j++ {
 				m := tiny(r)
 				prefix = append(prefix, m)
